@@ -719,7 +719,10 @@ theorem C16_refresh_request_not_lost (I : Nat) (pre post : List RAct) (a : RAct)
     | cons x t ih =>
       intro g r h
       apply ih
-      cases x <;> simp [gstep, gstepWith, h]
+      rw [gstep_reqs]
+      split
+      · exact List.mem_append_left _ h
+      · exact h
   have hd1 : (grun I ({} : RGhost) (pre ++ [a])).d = rrun I {} (pre ++ [a]) := grun_d I _ _
   have hd0 : (grun I ({} : RGhost) pre).d = rrun I {} pre := grun_d I _ _
   have e2 : (grun I (grun I ({} : RGhost) (pre ++ [a])) post).d = rrun I (rrun I {} (pre ++ [a])) post := by
@@ -738,21 +741,36 @@ after it. -/
 theorem C16_refresh_drain_quiet (I : Nat) (d : RDeb) : (rrun I d (dsched I d .drain)).quiet = true :=
   drain_quiet I d
 
-/-- `C16_debouncer_oracle_ok`: the oracle the unit-level harness evaluates on the REAL refreshDebouncer (op
-`evdbserved` after `evdbdrain`: the requests not followed by a refresh start) is empty in the model for every
-sequence of harness ops. -/
+/-- `C16_refresh_now_answered_by_later_refresh` (all schedules): a caller of `refreshNow()` is never handed the result of a
+refresh that had started before its call (the broadcaster it listens on is taken by the NEXT refresh start,
+also when the call is made while a refresh is running), and in a quiet state every caller has its answer. -/
+theorem C16_refresh_now_answered_by_later_refresh (I : Nat) (as : List RAct) :
+    (grun I {} as).early = [] ∧ ((grun I {} as).d.quiet = true → (grun I {} as).unanswered = []) := by
+  have h := grun_served_heard I as {} served_init heard_init
+  exact ⟨heard_early_nil _ h.2, heard_unanswered_nil _ h.1 h.2⟩
+
+/-- `C16_debouncer_oracle_ok`: the oracles the unit-level harness evaluates on the REAL refreshDebouncer (op
+`evdbserved` after `evdbdrain`: the requests not followed by a refresh start, the refreshNow() callers answered
+too early or not at all) are empty in the model for every sequence of harness ops. -/
 theorem C16_debouncer_oracle_ok (I : Nat) (ops : List DOp) :
-    (dstep I (drun I {} ops) .drain).lost = [] ∧ (dstep I (drun I {} ops) .drain).d.quiet = true := by
-  have hs : Served (dstep I (drun I {} ops) .drain) := dstep_served I _ _ (drun_served I ops {} served_init)
+    let g := dstep I (drun I {} ops) .drain
+    g.lost = [] ∧ g.early = [] ∧ g.unanswered = [] ∧ g.d.quiet = true := by
+  have h0 := drun_served_heard I ops {} served_init heard_init
+  have h := grun_served_heard I (dsched I (drun I {} ops).d .drain) _ h0.1 h0.2
   have hq : (dstep I (drun I {} ops) .drain).d.quiet = true := by
     unfold dstep; rw [grun_d]; exact drain_quiet I _
-  exact ⟨served_lost_nil _ hs (quiet_not_armed _ hq), hq⟩
+  exact ⟨served_lost_nil _ h.1 (quiet_not_armed _ hq), heard_early_nil _ h.2, heard_unanswered_nil _ h.1 h.2 hq, hq⟩
 
 /-- non-vacuity: a request while a refresh is running (the timer even fires during it), a `refreshNow()` during the
-next one: three refreshes, nothing lost -/
+next one (answered by the third refresh): three refreshes, nothing lost -/
 example :
     let g := drun 5 {} [.req, .fire, .req, .fire, .release, .now, .req, .drain]
-    g.d.refreshes = 3 ∧ g.reqs = [0, 1, 2, 2] ∧ g.lost = [] ∧ g.d.quiet = true := by decide
+    g.d.refreshes = 3 ∧ g.reqs = [0, 1, 2, 2] ∧ g.answers = [(2, 3)] ∧ g.lost = [] ∧ g.early = [] ∧ g.unanswered = [] ∧
+    g.d.quiet = true := by decide
+
+/-- what `early` is about: a variant (NOT the code) in which the flusher takes the broadcaster only when refreshFn has
+returned would answer a `refreshNow()` made during refresh 1 with the result of refresh 1 -/
+example : (RGhost.early { d := { refreshes := 1 }, reqs := [1], answers := [(0, 1)] }) = [0] := by decide
 
 /-- `C16_cex_drain_after_refresh_loses_request`: the variant in which the flusher stops and drains the timer once
 more AFTER refreshFn has returned (`drainAfterRefresh`) loses the request made while the refresh was running:
